@@ -119,6 +119,9 @@ META["rule"] += (
 META["rule"] += (
     " " + 'Added after the third round: strengths and attribute read-back with link weights of either sign; the adjacency handed over as dense int8/int64/bool/float, nested list or scipy csr/csc/coo/lil of bool/int8/uint8/int64/float; a third of the objects have a past (built with non-uniform node weights, n.s.i. measures queried, weights reset to the default); hub graphs (degree 230 .. 2100 with small cliques among the neighbours) for the degree-normalised measures.')
 
+META["rule"] += (
+    " " + 'Added after the fifth round: a fifth of the weighted graphs have links of length exactly 0; the directed switch is handed over as bool / np.bool_ / 0-1.')
+
 REFUSALS = ("NotImplementedError",)
 
 
